@@ -262,7 +262,7 @@ def check_search(ctx, out, rule="C01.search"):
                         n += 1
                     else:
                         out.viol(rule, "%s|%s|take_while" % (rule, b.id), ctx.where(b, t["span"]), "the take_while bound over the sorted line changes is %s" % detail)
-    out.inst(rule, n, 4, samples, note="%d model evaluations" % evals, exhaustive=True)
+    out.inst(rule, n, 3, samples, note="%d model evaluations" % evals, exhaustive=True)
 
 
 def check_affects(ctx, out):
@@ -544,6 +544,14 @@ def run(ctx, out, tier):
         check_mode(ctx, out, fp, rule="C01.mode")
     shared.sh_merge(ctx, out, ctx.reachable_bodies())
     shared.sh_units(ctx, out)
+    # a rule only runs if the lazy detection loop creates its validator: every pending detector is asked
+    # about every block (shared with C14)
+    from rules.C14 import check_once as _detect_once, detect_fn as _detect_fn
+    _dv = _detect_fn(ctx)
+    if _dv is not None:
+        _detect_once(ctx, out, _dv, rule="C01.detect")
+    else:
+        out.inst("C01.detect", 0, 4)
     return meta()
 
 
